@@ -213,7 +213,21 @@ class C06(Monitor):
             self._use(k)
             return out
         if cfg.get('hits_only'):
-            return out          # (only the hit rules are judged in these configurations)
+            # only the hit rules are judged in these configurations -- plus, for LRU, the policy restricted to the entries
+            # whose uses the wrapper has seen: if a *tracked* entry is the victim it is the least recently used tracked one
+            # (entries that came in by load() and were never used have no recency; evicting one of them is never judged)
+            if eff_purge(cfg) and tr.pre.archived and m is not None and len(prek) + 1 > m:
+                self.order, self.count = [], collections.Counter()
+                return out
+            order = [q for q in self.order if q != k and q in prek] + [k]
+            if alg == 'lru':
+                for r in removed:
+                    if r in order and r != order[0]:
+                        out.append((_sig(cfg, 'C06', 'lru-wrong-victim-among-tracked'),
+                                    'LRU evicted %r although %r was used less recently (uses seen, oldest first: %r)' % (r, order[0], order)))
+            self._use(k)
+            self._forget(removed)
+            return out
         overflow = m is not None and len(prek) + 1 > m
         purge = eff_purge(cfg) and tr.pre.archived
         if not overflow:
